@@ -191,11 +191,30 @@ def _inf_cmp(op, b):
     return None
 
 
+_RUN_ID = [0]  # id of the run currently executing (incremented by explore for every run)
+
+
 class _SNum:
-    __slots__ = ('e',)
+    """`e` is the z3 term. When a value is concretised through its wrapper (__index__/__int__/__hash__), the wrapper is
+    *pinned* to that literal for the rest of the run (the path condition says so anyway), so that later arithmetic on it
+    folds to plain Python numbers. Pins are tagged with the run id and ignored by every other run."""
+    __slots__ = ('_e', '_pin', '_pin_run')
 
     def __init__(self, e):
-        self.e = e
+        self._e = e
+        self._pin = None
+        self._pin_run = -1
+
+    @property
+    def e(self):
+        if self._pin_run == _RUN_ID[0] and _CTX is not None:
+            return self._pin
+        return self._e
+
+    def _pin_to(self, v):
+        if _CTX is not None:
+            self._pin = _lit(self._e, v)
+            self._pin_run = _RUN_ID[0]
 
     # --- arithmetic
     def _bin(self, other, f, rev=False):
@@ -338,10 +357,11 @@ class SInt(_SNum):
     def __rmod__(self, o): return self._intbin(o, SInt._fmod, True)
 
     def __index__(self):
-        return _concretise(self.e, in_dunder=True)
+        v = _concretise(self.e, in_dunder=True)
+        self._pin_to(v)
+        return v
 
-    def __int__(self):
-        return _concretise(self.e, in_dunder=True)
+    __int__ = __index__
 
     def __trunc__(self):
         return self
@@ -353,11 +373,63 @@ class SInt(_SNum):
         return float(_concretise(self.e, in_dunder=True))
 
     def __hash__(self):
-        return hash(_concretise(self.e, in_dunder=True))
+        return hash(self.__index__())
+
+    def sqrt(self):
+        """np.sqrt on an object array calls this. A symbolic radicand yields an SSqrt, which only supports the order
+        comparisons (argmin / argsort / min): sqrt is monotone on the non-negative numbers."""
+        c = _const_of(_simp(self.e))
+        if c is None:
+            return SSqrt(self)
+        return math.sqrt(c)
+
+
+class SSqrt:
+    """sqrt(x) of a symbolic x >= 0, comparable only: sqrt(a) < sqrt(b) <=> a < b; sqrt(a) < c <=> c > 0 and a < c*c"""
+    __slots__ = ('x',)
+
+    def __init__(self, x):
+        self.x = x
+        neg = x < 0
+        if neg is True or (isinstance(neg, SBool) and bool(neg)):
+            raise ValueError('math domain error')
+
+    @staticmethod
+    def _rad(o):
+        """(radicand, ok) of the other operand: another SSqrt, or a non-negative number c -> c*c"""
+        if isinstance(o, SSqrt):
+            return o.x, None
+        if isinstance(o, (int, float, np.integer, np.floating)):
+            return o*o, o >= 0
+        raise EngineError(f'comparison of a symbolic square root with {type(o)!r}')
+
+    def _cmp(self, o, op):
+        r, nonneg = self._rad(o)
+        if nonneg is False:  # sqrt(x) vs a negative number
+            return op in ('gt', 'ge', 'ne')
+        return {'lt': self.x < r, 'le': self.x <= r, 'gt': self.x > r, 'ge': self.x >= r,
+                'eq': self.x == r, 'ne': self.x != r}[op]
+
+    def __lt__(self, o): return self._cmp(o, 'lt')
+    def __le__(self, o): return self._cmp(o, 'le')
+    def __gt__(self, o): return self._cmp(o, 'gt')
+    def __ge__(self, o): return self._cmp(o, 'ge')
+    def __eq__(self, o): return self._cmp(o, 'eq')
+    def __ne__(self, o): return self._cmp(o, 'ne')
+    __hash__ = None
+
+    def __repr__(self):
+        return f'SSqrt({self.x!r})'
 
 
 class SReal(_SNum):
     __slots__ = ()
+
+    def sqrt(self):
+        c = _const_of(_simp(self.e))
+        if c is None:
+            return SSqrt(self)
+        return math.sqrt(c)
 
     def __float__(self):
         v = _concretise(self.e, in_dunder=True)
@@ -875,6 +947,44 @@ class representative:
         return False
 
 
+_NUMBA_READY = [False]
+
+
+def _numba_ready():
+    """numba builds its registry of NumPy functions lazily at its first compilation, by looking at the attributes of the
+    numpy module; that must not happen while a shim is installed. Force it once before the first exploration."""
+    if _NUMBA_READY[0]:
+        return
+    _NUMBA_READY[0] = True
+    if 'numba' in sys.modules:
+        import numba
+
+        @numba.njit
+        def _f(x):
+            return np.sqrt(x)+1.
+        _f(1.)
+
+
+def _shim_sqrt(orig):
+    """NumPy shim (environment stub, active during an exploration only): np.sqrt on an object array. NumPy's object loop
+    needs a `.sqrt()` method on every element, which plain Python numbers (what pinned symbolic values fold to) do not
+    have; concrete numbers are converted to float (same result as on a numeric array), symbolic elements go through
+    their own `.sqrt()` (order-only SSqrt)."""
+    def sqrt(x, *a, **kw):
+        if isinstance(x, np.ndarray) and x.dtype == object and not a and not kw:
+            flat = [v.sqrt() if isinstance(v, (SInt, SReal)) else math.sqrt(v) for v in x.ravel().tolist()]
+            if all(isinstance(v, float) for v in flat):
+                return np.array(flat, dtype=float).reshape(x.shape)
+            out = np.empty(len(flat), dtype=object)
+            for i_, v in enumerate(flat):
+                out[i_] = v
+            return out.reshape(x.shape)
+        if isinstance(x, (SInt, SReal)):
+            return x.sqrt()
+        return orig(x, *a, **kw)
+    return sqrt
+
+
 def explore(fn, pre=(), max_paths=20000, fanout_cap=64, time_cap_s=120., query_timeout_ms=20000,
             keep_exceptions=(Exception,), unknown_as_feasible=False, abstract_fp=False) -> Exploration:
     """Run fn() (zero arguments; builds its own fresh state and runs the real code on symbolic values) once per
@@ -898,6 +1008,9 @@ def explore(fn, pre=(), max_paths=20000, fanout_cap=64, time_cap_s=120., query_t
         return ex
     ctx.pending.append(([], []))
     _CTX = ctx
+    _numba_ready()
+    _np_sqrt = np.sqrt
+    np.sqrt = _shim_sqrt(_np_sqrt)
     try:
         while ctx.pending:
             if len(ex.paths) >= max_paths:
@@ -908,6 +1021,7 @@ def explore(fn, pre=(), max_paths=20000, fanout_cap=64, time_cap_s=120., query_t
                 break
             prefix, psites = ctx.pending.pop()
             ctx.prefix_sites = psites
+            _RUN_ID[0] += 1
             ctx.start(prefix)
             kind, value, exc = 'ret', None, None
             try:
@@ -937,6 +1051,7 @@ def explore(fn, pre=(), max_paths=20000, fanout_cap=64, time_cap_s=120., query_t
             ex.status = f'inconclusive: {ctx.fanout_hit}'
     finally:
         _CTX = None
+        np.sqrt = _np_sqrt
         ex.stats = ctx.stats
         ex.stats.explorations = 1
         STATS.paths += ctx.stats.paths
@@ -1150,7 +1265,7 @@ def fp_model_value(model, e):
     raise EngineError(f'not an FP value: {v}')
 
 
-__all__ += ['SFloat', 'sym_float', 'fp_model_value']
+__all__ += ['SFloat', 'sym_float', 'fp_model_value', 'SSqrt']
 
 
 class FPAbstraction:
